@@ -112,6 +112,8 @@ def plan_other(pid, tier):
             P.append(("HISTREQ native builder: 5 symbolic requests from the empty builder", rq.req_tasks("native", 5, ["simple", "basic"]), base))
     elif pid == "C18":
         P.append(("RESOLVER: every entry point x every strategy, symbolic resolver answers and overrides", rd.resolver_tasks(native4), base))
+        P.append(("TABLE: registrations (typed / may-be-uninit, 1..3 types, repeated) then typed, dynamic, host and unregistered lookups; host size/alignment symbolic",
+                  rd.table_tasks(), base))
     elif pid == "C20":
         targets = ["generic"] + native4
         if tier == "quick":
@@ -154,6 +156,8 @@ def scenario_of(task, model):
         return rd.conv_scenario(task, model)
     if k == "resolver":
         return rd.resolver_scenario(task, model)
+    if k == "table":
+        return dict(kind="table", regs=[dict(tag=t_, uninit=u_) for t_, u_ in task["regs"]], dup=bool(task.get("dup")))
     raise ValueError(k)
 
 
@@ -463,7 +467,8 @@ FUNCS = {
     "C12": ["GenericRecordDefinitionBuilder::{new,add_datum,remove_datum,has_pending_changes,close_record_variant_with,get_current_data,"
             "get_current_datum_definition_by_name,build}", "NativeRecordDefinitionBuilder::{add_datum_override,remove_datum,close_record_variant_with,...}",
             "generic::variant::{append_data,append_data_reverse}, native strategies", "DatumDefinitionCollection::{push,get,get_mut}"],
-    "C18": ["NativeRecordDefinitionBuilder::{add_datum,add_datum_allow_uninit,add_datum_override,add_dynamic_datum,copy_datum,close_record_variant_with}",
+    "C18": ["StaticTypeResolver::{new,add_type,add_type_allow_uninit}, <StaticTypeResolver as TypeResolver>::{type_info,dynamic_type_info}, <HostTypeResolver as TypeResolver>::type_info",
+            "NativeRecordDefinitionBuilder::{add_datum,add_datum_allow_uninit,add_datum_override,add_dynamic_datum,copy_datum,close_record_variant_with}",
             "TypeResolver for &R (forwarding impl); the driver's resolver answers symbolically", "native strategies"],
     "C19": ["everything of the layout family, with hashed containers' iteration order, addresses cast to integers, clocks and the process environment as environment symbols"],
     "C20": ["record::definition::convert::convert_record_definition", "NativeRecordDefinitionBuilder::{copy_datum,remove_datum,close_record_variant_with}",
